@@ -409,7 +409,9 @@ class Context(object):
         frame = self._stack[0]
         if attr in frame:
             del frame[attr]
-            self._record.pop(attr, None)
+            if attr not in self:
+                # -- KEEP RECORD: While an outer frame still holds this name.
+                self._record.pop(attr, None)
         else:
             msg = "'{0}' object has no attribute '{1}' at the current level"
             msg = msg.format(self.__class__.__name__, attr)
